@@ -270,6 +270,8 @@ uint64_t Env::call(const char *entry, void *fn, std::initializer_list<uint64_t> 
                 }
                 // restore the call stack image for later runs
                 memcpy((uint8_t *) (uintptr_t) call_rsp - DEAD, poison_ref.data(), poison_ref.size());
+                extern std::string addr_to_sym(uintptr_t);
+                d += " at " + addr_to_sym(g_fault.rip);
                 // fatal: every check counts a crash inside the library as its own violation
                 {
                         Violation v;
